@@ -91,7 +91,10 @@ func RunCheck(s *CheckSpec) int {
 		all = append(all, v...)
 		nviol += n
 	}
-	if s.Post != nil {
+	if s.Post != nil && len(all) > 0 {
+		fmt.Printf("verifsim: validation legs skipped: the simulated legs already found violations\n")
+	}
+	if s.Post != nil && len(all) == 0 {
 		v, err := s.Post(total)
 		if err != nil {
 			fmt.Fprintf(os.Stderr, "verifsim: INFRASTRUCTURE: %v\n", err)
